@@ -121,8 +121,8 @@ def paramsOf (red pers ack : Nat) : Params :=
 def doParams (s : Server) (c : Nat) (cs : Sess) (red pers ack : Nat) : Server × MsgOut :=
   if cs.gotMsg then (s, { term := some ⟨.failedPrecondition, .modifyNotAllowed⟩ })
   else if red == 0 && pers == 1 then (s, { term := some ⟨.failedPrecondition, .unsupportedParams⟩ })
-  else if red == 0 then (s, { term := some ⟨.unimplemented, .unsupportedParams⟩ })
-  else if pers == 0 then (s, { term := some ⟨.unimplemented, .unsupportedParams⟩ })
+  else if red != 1 then (s, { term := some ⟨.unimplemented, .unsupportedParams⟩ })
+  else if pers != 1 then (s, { term := some ⟨.unimplemented, .unsupportedParams⟩ })
   else
     let cp := paramsOf red pers ack
     if s.sess.all (fun e => e.1 == c || e.2.params == cp) then
@@ -228,22 +228,24 @@ def doOps (s : Server) (c : Nat) (cs : Sess) (l : List (Op × List Rib.CEv)) : O
     | some (r', o) =>
       some ({ s with rib := r', sess := s.sess.insert c { cs with gotMsg := true } }, o)
 
+/-- when the RPC ends, the session's entry is removed (`deleteClient`) -/
+def finish (c : Nat) (r : Server × MsgOut) : Server × MsgOut :=
+  match r.2.term with
+  | some _ => (r.1.drop c, r.2)
+  | none => r
+
 /-- one received message on session `c`. `none` = a cascade script was not accepted, or the
 session does not exist. -/
 def recv (s : Server) (c : Nat) (m : Msg) : Option (Server × MsgOut) :=
   match s.sess.get? c with
   | none => none
   | some cs =>
-    let fin (r : Server × MsgOut) : Server × MsgOut :=
-      match r.2.term with
-      | some _ => (r.1.drop c, r.2)
-      | none => r
     match m with
     | .multi => some (s.drop c, { term := some ⟨.invalidArgument, .none⟩ })
     | .empty => some (s.drop c, { term := some ⟨.unimplemented, .none⟩ })
-    | .params red pers ack => some (fin (doParams s c cs red pers ack))
-    | .elec e => some (fin (doElec s c cs e))
-    | .ops l => (doOps s c cs l).map fin
+    | .params red pers ack => some (finish c (doParams s c cs red pers ack))
+    | .elec e => some (finish c (doElec s c cs e))
+    | .ops l => (doOps s c cs l).map (finish c)
 
 /-- the client half-closes, cancels or the transport fails: the session entry is removed,
 nothing else changes -/
